@@ -234,7 +234,7 @@ def explore(engine, prop, tier, seed, batch=BATCH_DEFAULT, isolate=None, budget_
             continue
         try:
             tmin = time.monotonic()
-            small = spec if key == HANG_KEY else engine.minimise(spec, key, still_fails, tmin + 45)
+            small = spec if key == HANG_KEY else engine.minimise(spec, key, still_fails, tmin + 60)
         except Exception as e:   # minimiser trouble must not hide the violation
             small = spec
             lines.append('NOTE minimiser failed: %r' % (e,))
